@@ -107,7 +107,7 @@ class MultiGeoLineString(MultiShapeBase, LineLikeMixin, SimpleShapeMixin):
                 [Coordinate(**dict(zip(('longitude', 'latitude', 'z'), x))) for x in line]
             ) for line in geom.get('coordinates', [])
         ]
-        properties = gjson.get('properties', {})
+        properties = dict(gjson.get('properties') or {})
         dt = get_dt_from_geojson_props(
             properties,
             time_start_property,
@@ -304,7 +304,7 @@ class MultiGeoPoint(MultiShapeBase, PointLikeMixin, SimpleShapeMixin):
             GeoPoint(Coordinate(**dict(zip(('longitude', 'latitude', 'z'), coord))))
             for coord in geom.get('coordinates', [])
         ]
-        properties = gjson.get('properties', {})
+        properties = dict(gjson.get('properties') or {})
         dt = get_dt_from_geojson_props(
             properties,
             time_start_property,
@@ -546,7 +546,7 @@ class MultiGeoPolygon(MultiShapeBase, PolygonLikeMixin, SimpleShapeMixin):
 
             shapes.append(GeoPolygon(shell, holes=holes))
 
-        properties = gjson.get('properties', {})
+        properties = dict(gjson.get('properties') or {})
         dt = get_dt_from_geojson_props(
             properties,
             time_start_property,
